@@ -30,6 +30,19 @@ CLAIMS = {
              "differential run over random file sets x every global position and by regenerated constants/expressions.",
         note="sort.Search and bytes.Replace are re-implemented from their documentation; the lazily built line table is modelled as computed eagerly.",
         technique="Lean 4 theorems (induction over AddFile, binary-search lemma, line table) + differential correspondence + regenerated facts"),
+    "C13": dict(
+        text="Machine-checked proof (Lean 4), for every tree (any arity/depth, leaves, alternative lists, interpreters with or without "
+             "checker/transformer capability, any callback / checker / transformer behaviour including failures at any node): Walk's "
+             "callback trace is the post-order enumeration cut right after the first 'true' and every node is visited exactly once "
+             "otherwise (c13_walk, c13_walk_every_node, c13_walk_stops); StaticCheck equals an independent bottom-up specification, "
+             "returns the first error in post-order with exactly the earlier nodes annotated, and records each checker's answer on its "
+             "node (c13_check_order, c13_check_first_error, c13_check_records); Transform equals its specification (c13_transform); "
+             "evaluation hands each interpreter exactly its node and Select/Array/Object index as documented (c13_eval_*). Tied to "
+             "parsley/walk.go, static_check.go, transform.go, evaluate.go and the ast package by a differential run on random trees built "
+             "with the real constructors.",
+        note="Checker, transformer and custom interpreter behaviour are universally quantified functions; Go interface dispatch "
+             "(Walkable/StaticCheckable/Transformable) is transcribed by hand.",
+        technique="Lean 4 theorems by mutual structural induction over trees against independent specifications + differential correspondence"),
     "C15": dict(
         text="Machine-checked proof (Lean 4) that the slice-heap/map-heap model of IntSet/IntMap refines the plain set/map "
              "specification for every history and every append growth policy (c15_refine, c15_sorted, c15_grow_irrelevant), tied to "
